@@ -125,6 +125,9 @@ def uninstall():
 
 
 class Run:
+    BLOCK_TIMEOUT = 2.0      # seconds without a sign of life before a thread is presumed to wait for something another holds
+    POLL = 0.05
+
     def __init__(self, funcs, plan, edit, trace_points=False):
         self.funcs = funcs
         self.plan = plan
@@ -133,9 +136,11 @@ class Run:
         self.ids = {}
         self.res = {}
         self.go = {n: _Gate() for n in funcs}
-        self.back = _Gate()
-        self.blocked = {n: False for n in funcs}
+        self.back = {n: _Gate() for n in funcs}
+        self.blocked = {n: False for n in funcs}          # waits for a patched lock (cooperatively: it gave the turn back)
+        self.hard = {n: False for n in funcs}             # presumed to wait inside something we do not see (import lock ...)
         self.lock_waits = 0                               # how often a scheduled thread had to wait for a lock
+        self.hard_blocks = 0
         self.stop_at = {n: None for n in funcs}
         self.done = {n: False for n in funcs}
         self.threads = {}
@@ -152,7 +157,7 @@ class Run:
         finally:
             self.done[n] = True
             self.ids.pop(threading.get_ident(), None)
-            self.back.release()
+            self.back[n].release()
 
     def on_line(self, code, line):
         n = self.ids.get(threading.get_ident())
@@ -164,37 +169,52 @@ class Run:
         if self.stop_at[n] is not None and self.counts[n] >= self.stop_at[n]:
             self.stop_at[n] = None
             self.stopped_at[n] = (code.co_filename[len(_state['pkg']):], line, code.co_name)
-            self.back.release()
+            self.back[n].release()
             self.go[n].acquire()
 
     def yield_blocked(self, n):
         """Called by scheduled thread n when a lock it wants is taken: give the turn back, marked as waiting."""
         self.blocked[n] = True
         self.lock_waits += 1
-        self.back.release()
+        self.back[n].release()
         self.go[n].acquire()
         self.blocked[n] = False
 
     def _turn(self, n, watchdog):
+        """Give thread n the turn and wait until it hands it back.  False: no sign of life for BLOCK_TIMEOUT - the thread is
+        presumed to wait inside something invisible to us (e.g. the import lock of a module another thread is importing)."""
         self.go[n].release()
-        if not self.back.acquire(timeout=watchdog):
-            raise Watchdog('thread %s did not reach its next boundary' % n)
+        if self.back[n].acquire(timeout=min(watchdog, self.BLOCK_TIMEOUT)):
+            return True
+        self.hard[n] = True
+        self.hard_blocks += 1
+        return False
 
     def _advance(self, n, k, watchdog):
         """Let thread n run until its k-th boundary (None: to completion).  While n waits for a lock, the other threads
         advance one boundary at a time (in name order) until n can go on."""
+        import time
+        t0 = time.time()
         self.stop_at[n] = k
         self._turn(n, watchdog)
         spins = 0
-        while self.blocked[n]:
-            others = [m for m in sorted(self.funcs) if m != n and not self.done[m]]
+        while self.blocked[n] or self.hard[n]:
+            if time.time() - t0 > watchdog:
+                raise Watchdog('thread %s did not reach its next boundary' % n)
+            others = [m for m in sorted(self.funcs) if m != n and not self.done[m] and not self.hard[m]]
             if not others:
+                if self.hard[n]:
+                    # nobody else can move: n is simply slow (or stuck for good - then the watchdog fires)
+                    if self.back[n].acquire(timeout=self.POLL * 10):
+                        self.hard[n] = False
+                    continue
                 raise Watchdog('thread %s waits for a lock nobody will release' % n)
             progressed = False
             for m in others:
                 before = self.counts[m]
                 self.stop_at[m] = self.counts[m] + 1
-                self._turn(m, watchdog)
+                if not self._turn(m, watchdog):
+                    raise Watchdog('threads %s and %s both stopped moving' % (n, m))
                 if self.done[m] or (self.counts[m] > before and not self.blocked[m]):
                     progressed = True
                 self.stop_at[m] = None
@@ -203,7 +223,11 @@ class Run:
             spins += 1
             if not progressed or spins > 500000:
                 raise Watchdog('deadlock: every thread waits for a lock')
-            self._turn(n, watchdog)
+            if self.hard[n]:
+                if self.back[n].acquire(timeout=self.POLL):
+                    self.hard[n] = False          # n went on by itself and has now handed the turn back
+            else:
+                self._turn(n, watchdog)
 
     def run(self, watchdog=60.0):
         install()
